@@ -152,6 +152,7 @@ func checkC01(r *core.Run) {
 	rowsErrChecked(r, "C01.errchain", append(append([]*core.FuncInfo{}, u.chain...), reachFrom(r.W, u.executors, pUndo)...))
 	c01Reverse(r, u)
 	c01Dispatch(r, u)
+	c01RowValues(r)
 	r.Floor("C01.status", 3)
 	r.Floor("C01.tx", 3)
 	r.Floor("C01.dispatch", 3)
@@ -269,7 +270,20 @@ func c01Tx(r *core.Run, u *undoWorld, prop string) {
 				"begun on "+strings.Join(beginOn, ",")+", statements on "+strings.Join(uniq(stmtsOn), ","),
 				"the transaction is begun on ["+strings.Join(beginOn, ",")+"] but the undo statements run on ["+strings.Join(uniq(stmtsOn), ",")+"]: they execute in autocommit on another connection, so the lock taken by the validation read is gone before the restore (a foreign write in between is overwritten) and a failing later statement leaves the earlier restores committed")
 		}
-		sp := &flow.Spec{W: w, Depth: 2, Classify: func(pkg *packages.Package, call *ast.CallExpr, callee *types.Func) []flow.Tag {
+		// paths on which the loop over the records ran are kept apart from those on which it did not (what is done
+		// afterwards — delete or marker — may be chosen inside the loop, e.g. as a function value)
+		var split []flow.Tag
+		ast.Inspect(fn.Decl.Body, func(n ast.Node) bool {
+			if rs, ok := n.(*ast.RangeStmt); ok {
+				if id, ok := ast.Unparen(rs.X).(*ast.Ident); ok {
+					if v, ok := fn.Pkg.TypesInfo.Uses[id].(*types.Var); ok && !v.IsField() && v.Parent() != v.Pkg().Scope() {
+						split = append(split, flow.RangedTag(v))
+					}
+				}
+			}
+			return true
+		})
+		sp := &flow.Spec{W: w, Depth: 2, Split: split, Classify: func(pkg *packages.Package, call *ast.CallExpr, callee *types.Func) []flow.Tag {
 			if t := txTags(pkg, call, callee); t != nil {
 				return t
 			}
@@ -564,4 +578,145 @@ func returnedTypes(fn *core.FuncInfo) []*types.Named {
 		return true
 	})
 	return out
+}
+
+// c01RowValues (C01.restore): in the undo executors a compensating statement executed inside a loop over the rows of
+// an image is bound with values of the row being restored: every value handed to Exec is read from the loop's row
+// variable, or from something computed from it inside the loop (a key list resolved once, from another row, carries
+// that row's values — the statement then restores row after row onto one and the same row).
+func c01RowValues(r *core.Run) {
+	w := r.W
+	n := 0
+	siteIn := map[*core.FuncInfo]bool{}
+	for _, f := range w.SortedFuncs() {
+		if f.Pkg.PkgPath != pUndoExec || w.IsTestFile(f.Decl.Pos()) || f.Decl.Body == nil {
+			continue
+		}
+		info := f.Pkg.TypesInfo
+		ast.Inspect(f.Decl.Body, func(nd ast.Node) bool {
+			rs, ok := nd.(*ast.RangeStmt)
+			if !ok || rs.Value == nil {
+				return true
+			}
+			sel, ok := ast.Unparen(rs.X).(*ast.SelectorExpr)
+			if !ok || sel.Sel.Name != "Rows" {
+				return true
+			}
+			rowVar, _ := core.ObjOf(info, rs.Value).(*types.Var)
+			if rowVar == nil {
+				return true
+			}
+			inLoop := func(p token.Pos) bool { return p >= rs.Body.Pos() && p < rs.Body.End() }
+			var derived func(e ast.Expr, depth int) bool
+			derived = func(e ast.Expr, depth int) bool {
+				if e == nil || depth > 5 {
+					return false
+				}
+				if mentions(info, e, rowVar) {
+					return true
+				}
+				id, ok := ast.Unparen(e).(*ast.Ident)
+				if !ok {
+					// a selection / conversion of something derived
+					switch x := ast.Unparen(e).(type) {
+					case *ast.SelectorExpr:
+						return derived(x.X, depth+1)
+					case *ast.CallExpr:
+						if tv, isConv := info.Types[x.Fun]; isConv && tv.IsType() && len(x.Args) == 1 {
+							return derived(x.Args[0], depth+1)
+						}
+					case *ast.IndexExpr:
+						return derived(x.X, depth+1)
+					}
+					return false
+				}
+				v, ok := info.Uses[id].(*types.Var)
+				if !ok {
+					return false
+				}
+				defs := localDefs(f, v)
+				if len(defs) == 0 {
+					return false
+				}
+				some := false
+				for _, d := range defs {
+					if !inLoop(d.rhs.Pos()) && !d.rng {
+						return false // computed outside the loop over the rows
+					}
+					if d.rng && !inLoop(d.rhs.Pos()) {
+						return false
+					}
+					rhs := ast.Unparen(d.rhs)
+					if c, ok := rhs.(*ast.CallExpr); ok {
+						if fid, ok := c.Fun.(*ast.Ident); ok && fid.Name == "append" && len(c.Args) >= 1 {
+							for _, a := range c.Args[1:] {
+								if !derived(a, depth+1) {
+									return false
+								}
+							}
+							some = true
+							continue
+						}
+						if fid, ok := c.Fun.(*ast.Ident); ok && fid.Name == "make" {
+							continue
+						}
+					}
+					if !derived(rhs, depth+1) {
+						return false
+					}
+					some = true
+				}
+				return some
+			}
+			ast.Inspect(rs.Body, func(m ast.Node) bool {
+				c, ok := m.(*ast.CallExpr)
+				if !ok {
+					return true
+				}
+				callee := core.Callee(info, c)
+				if !(stdMethod(callee, pSQL, "Stmt", "Exec") || stdMethod(callee, pSQL, "Stmt", "ExecContext") || stdMethod(callee, pDriver, "Stmt", "Exec")) {
+					return true
+				}
+				n++
+				siteIn[f] = true
+				r.Sites++
+				r.Fn(f)
+				bad := ""
+				for _, a := range c.Args {
+					if t := info.TypeOf(a); t != nil && t.String() == "context.Context" {
+						continue
+					}
+					if !derived(a, 0) {
+						bad = core.ExprString(a)
+					}
+				}
+				r.Check(bad == "", "C01.restore", core.ShortKey(f.Obj)+" binds the compensating statement with the values of the row it restores", w.Pos(c.Pos()),
+					"every bound value is read from the loop's row", "the statement executed for each row of the image is bound with '"+bad+"', which is not computed from that row inside the loop: every row's old values are written onto the row whose key was resolved once, the other rows stay as the branch left them, and the branch is still reported as rolled back")
+				return true
+			})
+			return true
+		})
+	}
+	// every undo executor reaches such a per-row execution (its own, or one it shares with a sibling)
+	execs := 0
+	for _, f := range w.SortedFuncs() {
+		if f.Pkg.PkgPath != pUndoExec || w.IsTestFile(f.Decl.Pos()) || f.Obj.Name() != "ExecuteOn" || core.RecvNamed(f.Obj) == nil {
+			continue
+		}
+		if len(w.Calls(f)) == 0 {
+			continue // the embedded base type's empty method
+		}
+		execs++
+		found := false
+		for g := range w.Reach([]*core.FuncInfo{f}, func(h *core.FuncInfo) bool { return h.Pkg != f.Pkg }) {
+			if siteIn[g] {
+				found = true
+			}
+		}
+		r.Sites++
+		r.Check(found, "C01.restore", core.ShortKey(f.Obj)+" executes its compensating statement per image row", w.Pos(f.Decl.Pos()), "a statement execution inside a loop over the image rows is reached", "no per-row statement execution found for this undo executor")
+	}
+	if n == 0 || execs < 3 {
+		r.Bad("C01.restore", "compensating statements executed per image row", "", "fewer undo executors / per-row statement executions than confirmed by hand")
+	}
 }
